@@ -31,6 +31,8 @@ def sig_resp(rec):
                                          case.get("min_length"), case.get("filter"), case.get("path"))
 
 
+NEGOTIATE_COMPONENTS = ["mismatch:C05+C20", "mismatch:C13", "monitor:C05+C20", "monitor:C13"]
+
 RESP_TRUST = [
     "model coq/Model/Resp.v is hand-written from cache/http_response.go (NewHTTPResponse, shouldCompressed, GetRawBody, Compress, getBodyByAcceptEncoding, Fill) and Cacheable's pre-compress; tied by the negotiate family",
     "third-party codecs (compress/gzip, andybalholm/brotli, pierrec/lz4, golang/snappy, klauspost zstd) and Go regexp are Section variables: hypotheses decoder(encoder x)=x and encoders never return an empty stream; the harness passes their observed answers as tables",
@@ -50,7 +52,7 @@ def sig_c09(rec):
     return "codec:record " + str(case.get("record_hex"))[:80]
 
 
-FLIGHT_COMPONENTS = ["mismatch", "monitor:C01", "monitor:C02+C10", "monitor:C03", "monitor:C04+C08", "monitor:C07", "monitor:C18", "monitor:C10"]
+FLIGHT_COMPONENTS = ["mismatch", "monitor:C01", "monitor:C02+C10", "monitor:C03", "monitor:C04+C08+C20", "monitor:C07", "monitor:C18", "monitor:C10+C20"]
 
 
 def flight_family(quick, thorough, search):
@@ -59,7 +61,7 @@ def flight_family(quick, thorough, search):
 
 
 WAKEUP_FAMILY = {"quick": 8, "thorough": 8, "search": 8, "runner": "test", "test": "TestWakeup", "timeout_s": 40,
-                 "env": {"GODEBUG": "asyncpreemptoff=1", "GOMAXPROCS": "1"}, "components": ["mismatch", "monitor:C01"]}
+                 "env": {"GODEBUG": "asyncpreemptoff=1", "GOMAXPROCS": "1"}, "components": ["mismatch", "monitor:C01+C20"]}
 
 
 def sig_flight(rec):
@@ -91,7 +93,26 @@ def sys_prop(assumptions, explanation, with_wakeup=False, quick=120):
             "assumptions": assumptions, "explanation": explanation}
 
 
+def sig_c20(rec):
+    if rec.get("family") == "negotiate":
+        return sig_resp(rec)
+    return sig_flight(rec)
+
+
 PROPS = {
+    "C20": {
+        "families": {"flight": flight_family(120, 1500, 300), "wakeup": WAKEUP_FAMILY,
+                     "negotiate": {"quick": 300, "thorough": 8000, "search": 3000, "components": NEGOTIATE_COMPONENTS}},
+        "signature": sig_c20,
+        "trusted_base": SYS_TRUST + [
+            "harness/cmd/skeleton (go/ast) extracts, per function, the ordered lock operations, field reads/writes, calls and control structure; the verified analysis of coq/Proofs/Lockset.v runs on that term inside Coq on every run",
+            "the lock policy coq/Model/LockPolicy.v (which mutex protects which field) is hand-written",
+            "the Go memory model: accesses ordered by a held sync.RWMutex do not race",
+        ],
+        "assumptions": ["functions outside the listed set do not touch the protected fields (grep-level: the fields are unexported and only used in the listed files)",
+                        "configuration reloads are covered by C16's model; race-detector stress runs are supporting evidence in the thorough tier"],
+        "explanation": "lockset analysis proved sound once, evaluated per run on the regenerated skeletons; serve path write-set empty; Sys invariant + provenance over all schedules.",
+    },
     "C04": sys_prop(["whole-second clock granularity (the code reads time.Now().Unix()); the store is not forged (lost / truncated / invalid records are allowed)",
                      "Age() is a second lock acquisition after Get(): the cross-epoch case is exhibited in the model and labelled partial"],
                     "hit_is_installed_and_fresh via the provenance invariant; hits do not extend; refetch after expiry; Age value."),
@@ -126,7 +147,7 @@ PROPS = {
     },
     "C13": {
         "families": {"negotiate": {"quick": 400, "thorough": 8000, "search": 3000,
-                                   "components": ["mismatch:C05", "mismatch:C13", "monitor:C05", "monitor:C13"]}},
+                                   "components": NEGOTIATE_COMPONENTS}},
         "signature": sig_resp,
         "trusted_base": RESP_TRUST,
         "assumptions": ["Accept-Encoding is a plain list of codings (substring test = token membership on the standard tokens)"],
@@ -134,7 +155,7 @@ PROPS = {
     },
     "C05": {
         "families": {"negotiate": {"quick": 400, "thorough": 8000, "search": 3000,
-                                   "components": ["mismatch:C05", "mismatch:C13", "monitor:C05", "monitor:C13"]}},
+                                   "components": NEGOTIATE_COMPONENTS}},
         "signature": sig_resp,
         "trusted_base": RESP_TRUST,
         "assumptions": ["upstream data is a valid stream of its declared encoding and non-empty unless the body is empty"],
